@@ -113,7 +113,7 @@ func drawPair(t *rapid.T, service, product, region string) (p, q, class string) 
 }
 
 func TestPairs(t *testing.T) {
-	kit.Check(t, 2500, 320000, func(t *rapid.T) {
+	kit.Check(t, 8000, 320000, func(t *rapid.T) {
 		e := drawEnv(t)
 		// service and product are fixed per deployment; names ending in the region string make the
 		// underscore-joined key-id scheme itself ambiguous and are not generated
